@@ -724,26 +724,75 @@ def lookahead_wiring(ctx, rules=("C04.f",)):
     ctx.analysed_fn(cp)
     ex, paths = run_fn(cp, F, BaseModel(), max_paths=5000)
     n = 0
-    for p in paths:
+
+    def own_pair(p, t, l):
+        """is (t, l) = (terminal id of a pattern, the lookahead compiled from that same pattern on this path)?"""
         las = p.calls(r"CompiledLookahead::try_from_lookahead$")
+        ts = S.fstr(t)
+        items = set(re.findall(r"item@bb\d+", ts))
+        src = [c for c in las if l == ("field", ("downcast", c[4], "Ok"), "0")]
+        ok_t = "Pattern::terminal_id" in ts and len(items) == 1
+        ok_l = False
+        why = "the attached lookahead %s is not the result of compiling this pattern's lookahead on this path" % S.fstr(l)[:80]
+        if src:
+            a0 = S.fstr(src[-1][3][0])
+            ok_l = "Pattern::lookahead" in a0 and set(re.findall(r"item@bb\d+", a0)) == items
+            why = "compiled from %s" % a0[:80]
+        return ok_t and ok_l, ts, why
+    from .common import loop_sources
+    staged_checked = False
+    for p in paths:
         for al in p.calls(r"CompiledDfa::add_lookahead$"):
             n += 1
             t, l = al[3][1], al[3][2]
-            ts = S.fstr(t)
-            items = set(re.findall(r"item@bb\d+", ts))
-            src = [c for c in las if l == ("field", ("downcast", c[4], "Ok"), "0")]
-            ok_t = "Pattern::terminal_id" in ts and len(items) == 1
-            ok_l = False
-            why = "the attached lookahead %s is not the result of compiling this pattern's lookahead on this path" % S.fstr(l)[:80]
-            if src:
-                a0 = S.fstr(src[-1][3][0])
-                ok_l = "Pattern::lookahead" in a0 and set(re.findall(r"item@bb\d+", a0)) == items
-                why = "compiled from %s" % a0[:80]
-            ob("mode:lookahead-attached-to-its-own-pattern", ok_t and ok_l, "add_lookahead(%s, ..): %s" % (ts[:60], why), cp.loc())
+            t = ex.deref_val(p, t) if t[0] == "ref" else t
+            l = ex.deref_val(p, l) if l[0] == "ref" else l
+            mt, ml = re.match(r"^\(?(item@bb\d+)\)?\.0$", S.fstr(t)), re.match(r"^\(?(item@bb\d+)\)?\.1$", S.fstr(l))
+            if mt and ml and mt.group(1) == ml.group(1):
+                # staged form: the (terminal, compiled lookahead) pairs are collected first and attached in a second loop.
+                # The second loop must walk the whole list of pairs and attach each pair as it is; the obligation about
+                # the pair moves to the place where the pairs are put into the list.
+                bbk = int(mt.group(1)[len("item@bb"):])
+                srcs = [s_ for b_, s_ in loop_sources(ex, paths) if b_ == bbk or True]
+                pushes = [(q, e) for q in paths for e in q.events if e[0] == "call" and re.search(r"Vec::<\(.*TerminalID, .*CompiledLookahead\)>::push$", e[2])]
+                lst = set()
+                for q, e in pushes:
+                    r0 = e[3][0]
+                    if r0[0] == "ref" and r0[1][1][0] == "local":
+                        lst.add(cp.names().get(r0[1][1][2], "_%d" % r0[1][1][2]))
+                # the loop that yields this item walks the list of pairs itself (into_iter / iter / drain(..) of that local)
+                walks = []
+                nxt = cp.term(bbk)
+                if nxt["k"] == "call" and nxt["args"]:
+                    pv = M.Prov(cp)
+                    e_ = pv.operand(nxt["args"][0])
+                    calls_ = M.expr_calls(e_)
+                    leafs = M.expr_leaf_names(e_)
+                    plain = all(re.search(r"IntoIterator>::into_iter$|<impl \[.*\]>::iter$|Vec::<.*>::(iter|new|with_capacity)$|Deref>::deref$", c_[1]) for c_ in calls_)
+                    if plain and calls_:
+                        walks = sorted(n_ for n_ in leafs if n_ in lst)
+                muts = [M.short_name(M.call_name(t_)) for b_, t_ in cp.calls(r"Vec::<\(.*TerminalID, .*CompiledLookahead\)>::(sort\w*|dedup\w*|retain|remove|swap_remove|truncate|pop|drain|clear|reverse|insert)$")]
+                ok_stage = bool(pushes) and len(lst) == 1 and bool(walks) and not muts
+                ob("mode:staged-lookaheads-all-attached-unchanged", ok_stage, "pairs collected in %s, second loop over %s, other mutations %s" % (sorted(lst), walks, muts), cp.loc())
+                if not staged_checked:
+                    staged_checked = True
+                    for q, e in pushes:
+                        v = e[3][1]
+                        v = ex.deref_val(q, v) if v[0] == "ref" else v
+                        if v[0] != "tuple" or len(v[1]) != 2:
+                            ob("mode:lookahead-attached-to-its-own-pattern", False, "collected pair %s is not a (terminal, lookahead) tuple" % S.fstr(v)[:80], cp.loc())
+                            continue
+                        okp, ts, why = own_pair(q, v[1][0], v[1][1])
+                        ob("mode:lookahead-attached-to-its-own-pattern", okp, "collected pair (%s, ..): %s" % (ts[:60], why), cp.loc())
+                continue
+            okp, ts, why = own_pair(p, t, l)
+            ob("mode:lookahead-attached-to-its-own-pattern", okp, "add_lookahead(%s, ..): %s" % (ts[:60], why), cp.loc())
     # a pattern is passed over only because it has no lookahead (whatever drops it: `if let`, filter_map, continue)
     for p in paths:
         if p.end is None or p.end[0] != "cut" or p.calls(r"CompiledDfa::add_lookahead$") or p.calls(r"CompiledLookahead::try_from_lookahead$"):
             continue
+        if any(e[0] == "call" and re.search(r"iter::Iterator>::next$", e[2]) and "pattern" not in S.fstr(e[3][0]).lower() for e in p.events if e[0] == "call" and re.search(r"iter::Iterator>::next$", e[2])) and not any("Pattern::" in S.fstr(c) for c, o in p.conds):
+            continue      # an iteration of another loop (the second loop of the staged form)
         ic = [(c, o) for c, o in p.conds if "item@" in S.fstr(c) and not (c[0] == "isvar" and "Iterator>::next" in S.fstr(c))]
         if not ic:
             continue
